@@ -45,6 +45,10 @@ impl Rng {
         let n = if self.below(odds) == 0 { big } else { small };
         self.below(n)
     }
+    /// a length next to a power of two (block / chunk sizes), 15..129
+    pub fn long_len(&mut self) -> usize {
+        *self.pick(&[15usize, 16, 17, 31, 32, 33, 63, 64, 65, 127, 128, 129])
+    }
     pub fn range(&mut self, lo: i64, hi: i64) -> i64 {
         lo + (self.u64() % ((hi - lo + 1) as u64)) as i64
     }
